@@ -1373,6 +1373,9 @@ class WcParse(Generic[AnyStr]):
             else:
                 # Merged into the previous `globstar`, but trailing separators still count as one.
                 self.consume_path_sep(i)
+                # If this one follows symlinks (`***`: no capture group), the merged one does.
+                if not capture and len(current) > 1 and current[-2] == f'({globstar})':
+                    current[-2] = globstar
             self.set_start_dir()
         else:
             current.append(value)
